@@ -202,7 +202,8 @@ fn o3_9_ack_frame_any_ids_fresh_connection() {
     std::mem::forget(hc);
 }
 
-//@h props=C01,C03 tier=quick timeout=1500 role=data-gate
+//@h props=C01,C03 tier=quick timeout=1500 role=data-gate args=--no-memory-safety-checks
+//@assume Kani pointer checks off in this functional obligation
 //@fn HalfConnection::{handle_data_frame, receive}, FrameAckQueue::{window_contains, mark_seen}, PacketReceiver::{handle_datagram, receive}
 //@bound fresh small connection (rx frame base 2^32-3, frame window 64; rx packet base 2^20-1); ONE data frame with ANY frame id carrying one deliverable 2-byte packet, then the SAME frame again (network duplicate), then receive()
 #[kani::proof]
